@@ -2192,7 +2192,7 @@ def inline_new_properties(trees, stats):
       for m in c.body:
         if not (isinstance(m, ast.FunctionDef) and len(m.decorator_list) == 1 and ast.unparse(m.decorator_list[0]) == 'property'):
           continue
-        if any(q.endswith('.' + m.name) or q == m.name for q in known) or re.search(r'\b%s\b' % re.escape(m.name), alltext):
+        if any(q.endswith('.' + m.name) or q == m.name for q in known) or re.search(r'(\.|def\s+|[\'"])%s\b' % re.escape(m.name), alltext):
           continue
         body = [x for x in m.body if not (isinstance(x, ast.Expr) and isinstance(x.value, ast.Constant) and isinstance(x.value.value, str))]
         if len(body) != 1 or not isinstance(body[0], ast.Return) or body[0].value is None:
@@ -3032,6 +3032,42 @@ def sink_extra_params(trees, stats):
     stats['params_sunk'] = n
 
 
+def unwrap_lock_decorated_helpers(tree, rel, stats):
+  """A NEW private method that carries a lock decorator of the module (`def D(fn): def w(self, ..): with <X>: return fn(self, ..)`) is the
+  undecorated method with its whole body inside `with <X>:` -- the form the helper inlining can put back at the call site."""
+  b = load_baseline()
+  known = set(b.get('inventory', {}).get(rel, []))
+  if not known:
+    return
+  decos = {}
+  for d in tree.body:
+    if isinstance(d, ast.FunctionDef) and len(d.args.args) == 1:
+      inner = [n for n in _strip_doc(d.body) if isinstance(n, FN)]
+      if len(inner) != 1:
+        continue
+      wb = _strip_doc(inner[0].body)
+      if (len(wb) == 1 and isinstance(wb[0], ast.With) and len(wb[0].items) == 1 and wb[0].items[0].optional_vars is None and len(wb[0].body) == 1
+          and isinstance(wb[0].body[0], ast.Return) and isinstance(wb[0].body[0].value, ast.Call) and isinstance(wb[0].body[0].value.func, ast.Name)
+          and wb[0].body[0].value.func.id == d.args.args[0].arg and inner[0].args.args and inner[0].args.args[0].arg == 'self'):
+        decos[d.name] = wb[0].items[0].context_expr
+  if not decos:
+    return
+  n = 0
+  for q, (f, cont, cls) in collect(tree).items():
+    if q in known or cls is None or not isinstance(f, ast.FunctionDef) or len(f.decorator_list) != 1:
+      continue
+    dn = ast.unparse(f.decorator_list[0])
+    if dn not in decos or not f.args.args or f.args.args[0].arg != 'self' or any(isinstance(x, (ast.Yield, ast.YieldFrom)) for x in ast.walk(f)):
+      continue
+    body = _strip_doc(f.body)
+    f.decorator_list = []
+    f.body = [ast.With(items=[ast.withitem(context_expr=copy.deepcopy(decos[dn]), optional_vars=None)], body=body, lineno=f.lineno, col_offset=f.col_offset)]
+    n += 1
+  if n:
+    ast.fix_missing_locations(tree)
+    stats['lock_helpers_unwrapped'] = stats.get('lock_helpers_unwrapped', 0) + n
+
+
 def restore_package(trees, stats):
   """Before the per-module normalisation (on the raw trees)."""
   try:
@@ -3069,6 +3105,11 @@ def restore_package(trees, stats):
       inline_new_constants(trees, stats)
   except Exception as e:
     stats['constant_error'] = repr(e)
+  for rel, tree in trees.items():
+    try:
+      unwrap_lock_decorated_helpers(tree, rel, stats)
+    except Exception as e:
+      stats['lock_helper_error'] = repr(e)
   for rel, tree in trees.items():
     try:
       restore_lock_decorators(tree, rel, stats)
